@@ -1,7 +1,7 @@
 -------------------------- MODULE TimerQueueTrace --------------------------
 (***************************************************************************)
 (* Trace validation of datastruct/timerqueue.c (C13, timer-queue part).     *)
-(* State: the live entries and their times (sec, usec).  Identities are the *)
+(* State: the live entries and their times.  Identities are the *)
 (* driver's entry numbers, recovered from the pointer the queue hands back. *)
 (***************************************************************************)
 EXTENDS TraceBase, Integers, FiniteSets
@@ -9,28 +9,29 @@ CONSTANT MAXEL
 IDS == 1..MAXEL
 VARIABLES live, tm
 vars == <<l, live, tm>>
-Leq(a, b) == a[1] < b[1] \/ (a[1] = b[1] /\ a[2] <= b[2])
-Init == l = 1 /\ live = {} /\ tm = [i \in IDS |-> <<0, 0>>]
-TReset == IsEvent("reset") /\ live' = {} /\ tm' = [i \in IDS |-> <<0, 0>>]
+\* a time is <<seconds div 2^30, seconds mod 2^30, microseconds>> (TLC integers are 32-bit; seconds may be decades apart)
+Leq(a, b) == a[1] < b[1] \/ (a[1] = b[1] /\ (a[2] < b[2] \/ (a[2] = b[2] /\ a[3] <= b[3])))
+Init == l = 1 /\ live = {} /\ tm = [i \in IDS |-> <<0, 0, 0>>]
+TReset == IsEvent("reset") /\ live' = {} /\ tm' = [i \in IDS |-> <<0, 0, 0>>]
 IsMin(i) == i \in live /\ \A j \in live : Leq(tm[i], tm[j])
 TAdd == /\ IsEvent("t_add") /\ Ev.id \notin live /\ Ev.ok
-        /\ live' = live \cup {Ev.id} /\ tm' = [tm EXCEPT ![Ev.id] = <<Ev.s, Ev.u>>]
+        /\ live' = live \cup {Ev.id} /\ tm' = [tm EXCEPT ![Ev.id] = <<Ev.sh, Ev.s, Ev.u>>]
 TAddFail == IsEvent("t_add") /\ ~Ev.ok /\ Ev.inj > 0 /\ UNCHANGED <<live, tm>>       \* C14: failure changes nothing
 TInit == IsEvent("t_init") /\ live = {} /\ (Ev.ok \/ Ev.inj > 0) /\ UNCHANGED <<live, tm>>
 TEndAll == IsEvent("end") /\ Ev.live = 0 /\ UNCHANGED <<live, tm>>
 TDelete == IsEvent("t_delete") /\ Ev.id \in live /\ live' = live \ {Ev.id} /\ UNCHANGED tm
-TIncrease == /\ IsEvent("t_increase") /\ Ev.id \in live /\ Leq(tm[Ev.id], <<Ev.s, Ev.u>>)
-             /\ tm' = [tm EXCEPT ![Ev.id] = <<Ev.s, Ev.u>>] /\ UNCHANGED live
+TIncrease == /\ IsEvent("t_increase") /\ Ev.id \in live /\ Leq(tm[Ev.id], <<Ev.sh, Ev.s, Ev.u>>)
+             /\ tm' = [tm EXCEPT ![Ev.id] = <<Ev.sh, Ev.s, Ev.u>>] /\ UNCHANGED live
 \* getmin: the least time, or NULL iff empty
 TGetMin == /\ IsEvent("t_getmin")
-           /\ IF Ev.none THEN live = {} ELSE \E i \in live : IsMin(i) /\ tm[i] = <<Ev.s, Ev.u>>
+           /\ IF Ev.none THEN live = {} ELSE \E i \in live : IsMin(i) /\ tm[i] = <<Ev.sh, Ev.s, Ev.u>>
            /\ UNCHANGED <<live, tm>>
 \* getptr(t): exactly the pointer stored with a least entry, iff its time <= t; nothing later than t
 TGetPtr == /\ IsEvent("t_getptr")
            /\ IF Ev.id = 0
-              THEN /\ \A i \in live : ~Leq(tm[i], <<Ev.s, Ev.u>>)
+              THEN /\ \A i \in live : ~Leq(tm[i], <<Ev.sh, Ev.s, Ev.u>>)
                    /\ UNCHANGED <<live, tm>>
-              ELSE /\ IsMin(Ev.id) /\ Leq(tm[Ev.id], <<Ev.s, Ev.u>>)
+              ELSE /\ IsMin(Ev.id) /\ Leq(tm[Ev.id], <<Ev.sh, Ev.s, Ev.u>>)
                    /\ live' = live \ {Ev.id} /\ UNCHANGED tm
 TEnd == IsEvent("t_end") /\ live = {} /\ UNCHANGED <<live, tm>>
 Next == TReset \/ TAddFail \/ TInit \/ TEndAll \/ TAdd \/ TDelete \/ TIncrease \/ TGetMin \/ TGetPtr \/ TEnd
